@@ -15,6 +15,7 @@ mod sys;
 mod semantic;
 use semantic::{first_diff, semantic};
 
+use std::str::FromStr;
 use std::collections::HashMap;
 use std::io::Write;
 use std::path::Path;
@@ -305,13 +306,19 @@ fn fault_line(m: &mut Main, mode: &str, domain: &str, which: &str, op: &str, out
             let n_logged = succ_cmds(&o1, &one);
             let st = proj(&at_cut, "cas", &one);
             let ob = proj(&at_cut, "objects", &one);
+            // a GHOST: the still-running instance serves an entity by name that its own listing (the storage) does not
+            // have - an instance cached before the write of its init command failed
+            let ghost = !restarted
+                && at_cut.get("cas").and_then(|c| c.get(e)).is_none()
+                && rpki::ca::idexchange::CaHandle::from_str(e).ok().map(|h| s.krill.ca_manager().get_ca(&h).is_ok()).unwrap_or(false);
             if std::env::var("FAULT_DEBUG").is_ok() {
                 eprintln!("ENT {e}: state diff vs before: {}", first_diff(&proj(&before, "cas", &one), &st, ""));
                 eprintln!("ENT {e}: objects diff vs before: {}", first_diff(&proj(&before, "objects", &one), &ob, ""));
             }
             ent_rep.insert(e.clone(), json!({
                 "n_logged": n_logged, "n_total": total,
-                "state_is_before": st == proj(&before, "cas", &one), "state_is_after": st == st_after,
+                "state_is_before": st == proj(&before, "cas", &one) && !ghost, "state_is_after": st == st_after && !ghost,
+                "ghost": ghost,
                 "objects_is_before": ob == proj(&before, "objects", &one), "objects_is_after": ob == ob_after,
             }));
         }
